@@ -195,6 +195,16 @@ def rule_typestate(m):
                 t = tt.t(n['c'][ix], resolve_refs=True)
                 container = None
                 kind = None
+                while t[0] in ('cast', 'conv') and len(t) > 2 and isinstance(t[2], tuple):
+                    t = t[2]
+                if t[0] == 'call' and t[1] in ('std::min', 'std::max') and len(t[2]) >= 2:
+                    # std::min / std::max return a reference to one of their arguments: the new reference aliases whichever
+                    # argument is itself a reference into a container
+                    for a_ in t[2][:2]:
+                        a_ = a_[2] if a_[0] in ('cast', 'conv') and len(a_) > 2 and isinstance(a_[2], tuple) else a_
+                        if a_[0] == 'idx' or (a_[0] == 'mcall' and a_[1].split('::')[-1] in ('at', 'front', 'back', 'top')):
+                            t = a_
+                            break
                 if t[0] == 'idx':
                     bt = t[1]
                     if bt[0] in ('field', 'member') and m.role_of_field(bt[-1]) == 'L':
@@ -566,6 +576,105 @@ def rule_cursor_live(m):
             else:
                 res.ok(dict(function=f.display(), loop=f.expr_text(ln['cond'])[:50]) if len(res.samples) < 8 else None, fn=f.display())
     res.require_sites(4, 'cursor loops over neighbour lists')
+    return res
+
+
+_WIDTHS = {'bool': (1, 'i'), 'char': (8, 'i'), 'signed char': (8, 'i'), 'unsigned char': (8, 'i'), 'short': (16, 'i'),
+           'unsigned short': (16, 'i'), 'int': (32, 'i'), 'unsigned int': (32, 'i'), 'long': (64, 'i'), 'unsigned long': (64, 'i'),
+           'long long': (64, 'i'), 'unsigned long long': (64, 'i'), 'float': (32, 'f'), 'double': (64, 'f'), 'long double': (80, 'f')}
+
+
+def _width(ct):
+    ct = (ct or '').replace('const ', '').replace('&', '').strip()
+    return _WIDTHS.get(ct)
+
+
+def rule_accumulator_width(m):
+    """F-ACCW: a sum is computed in a type that can hold what is added to it."""
+    res = RuleResult('F-ACCW', 'the accumulator of a fold is at least as wide as the values folded into it: the initial value of '
+                               'std::accumulate (whose type IS the accumulator type) is not narrower than what its function object '
+                               'returns, and a local that collects a sum inside a loop is not narrower than the counter it is finally '
+                               'applied to (a 32-bit or integer accumulator truncates 64-bit totals / real weights at every step)')
+    for f in list(m.fns) + _fixture_functions('accwidth'):
+        if not f.tname.startswith(NS):
+            continue
+        u = f.unit
+        tt = Terms(f)
+        for n in f.nodes:
+            if n['k'] == 'CallExpr' and 'callee' in n and u.decl(n['callee'])['tname'] == 'std::accumulate' and len(n.get('args', [])) == 4:
+                acc = _width(n.get('t'))
+                lam = f.nodes[f.strip(n['args'][3])]
+                if acc is None or lam['k'] != 'LambdaExpr':
+                    continue
+                cd = u.decl(lam.get('callop', -1)) or {}
+                ret = _width(cd.get('crtype', ''))
+                if ret is None:
+                    continue
+                res.sites += 1
+                if (acc[1] == 'i' and ret[1] == 'f') or (acc[1] == ret[1] and acc[0] < ret[0]):
+                    res.fail(Finding('F-ACCW', f.display(), 'std::accumulate initial value', f.nloc(n['i']),
+                                     'the fold is computed in `%s` (the type of its initial value `%s`) while the function object '
+                                     'returns `%s`: every partial sum is converted back to the narrower type, so the result is '
+                                     'truncated as soon as it no longer fits' % (n.get('t'), f.expr_text(n['args'][2])[:20], cd.get('crtype'))))
+                else:
+                    res.ok(dict(function=f.display(), accumulator=n.get('t'), step=cd.get('crtype')) if len(res.samples) < 8 else None,
+                           fn=f.display())
+        # a local sum applied to a wider counter
+        loops = [x for x in f.nodes if x['k'] in ('ForStmt', 'WhileStmt', 'DoStmt', 'CXXForRangeStmt')]
+        for n in f.nodes:
+            if n['k'] not in ('CompoundAssignOperator', 'BinaryOperator') or n.get('op') not in ('+=', '-='):
+                continue
+            rhs = f.nodes[f.strip(n['c'][1])]
+            if rhs['k'] != 'DeclRefExpr' or not (u.decl(rhs['d']) or {}).get('local') or u.decl(rhs['d'])['dk'] != 'Var' or \
+                    u.decl(rhs['d']).get('isref'):
+                continue
+            # (a sum: starts at the literal 0 and is only ever added to)
+            inits0 = [d for d in _var_defs(f, rhs['d']) if d[1] >= 0]
+            if len(inits0) != 1 or tt.t(inits0[0][1]) not in (('int', 0), ('float', '0.000000')) and \
+                    not (tt.t(inits0[0][1])[0] in ('cast', 'ctor') and ('int', 0) in list(subterms(tt.t(inits0[0][1])))):
+                continue
+            sink = _width(f.nodes[f.strip(n['c'][0])].get('t') or n.get('t'))
+            src = _width(u.decl(rhs['d']).get('ctype'))
+            if sink is None or src is None:
+                continue
+            summed = [d for d in _var_defs(f, rhs['d']) if d[1] == -2 and any(d[0] in f.descendants(l.get('body', -1)) for l in loops if l.get('body', -1) >= 0)]
+            if not summed:
+                continue
+            res.sites += 1
+            if (src[1] == 'i' and sink[1] == 'f' and False) or (src[1] == sink[1] and src[0] < sink[0]) or (src[1] == 'i' and sink[1] == 'f' and src[0] < 64):
+                res.fail(Finding('F-ACCW', f.display(), 'local accumulator', f.nloc(n['i']),
+                                 '`%s` applies the local `%s` (%s), which collects a sum inside a loop, to a counter of type %s: the '
+                                 'partial sums wrap / truncate in the narrower local before they reach the counter'
+                                 % (f.expr_text(n['i'])[:50], u.decl(rhs['d'])['name'], u.decl(rhs['d']).get('ctype'),
+                                    f.nodes[f.strip(n['c'][0])].get('t') or n.get('t'))))
+            else:
+                res.ok(dict(function=f.display(), local=u.decl(rhs['d'])['name']) if len(res.samples) < 8 else None, fn=f.display())
+    _fixture_verdict(res, 'accwidth')
+    return res
+
+
+def rule_string_plus_int(m):
+    """D-STRPLUS: `"text" + n` is pointer arithmetic."""
+    res = RuleResult('D-STRPLUS', 'no `+` has a string literal (a const char array) on one side and an integer on the other: that is '
+                                  'pointer arithmetic into / past the literal, not concatenation (an error message built this way '
+                                  'reads out of bounds when the exception is constructed)')
+    for f in list(m.fns) + _fixture_functions('strplus'):
+        if not f.tname.startswith(NS):
+            continue
+        for n in f.nodes:
+            if n['k'] != 'BinaryOperator' or n.get('op') != '+':
+                continue
+            a, b = f.nodes[f.strip(n['c'][0])], f.nodes[f.strip(n['c'][1])]
+            for lit, other in ((a, b), (b, a)):
+                if lit['k'] == 'StringLiteral' and _width(other.get('t')) is not None and _width(other.get('t'))[1] == 'i':
+                    res.sites += 1
+                    res.fail(Finding('D-STRPLUS', f.display(), 'string literal + integer', f.nloc(n['i']),
+                                     '`%s` adds an integer to a string literal: the result is a pointer %s characters into (or past) '
+                                     'the literal, so building the message reads memory outside it for large values'
+                                     % (f.expr_text(n['i'])[:60], f.expr_text(n['c'][1] if lit is a else n['c'][0])[:20])))
+    res.sites += 1
+    res.ok(None)
+    _fixture_verdict(res, 'strplus')
     return res
 
 
